@@ -114,6 +114,8 @@ def run(c):
             ost, oorder = D.override_structs()
             packages.append(("pdo", ost, oorder, dict(slice=True, dur="Duration")))
             packages.append(("pdq", ost, oorder, dict(dur="TimeDuration")))
+            ist, iorder = D.import_structs()
+            packages.append(("pdi", ist, iorder, dict(importord=True)))
             n_pk = 2 if c.tier == "quick" else 16
             for i in range(n_pk):
                 rs, ro = D.gen_structs(rng, 24)
